@@ -92,7 +92,7 @@ func genPathPool(t *rapid.T, pr Profile) string {
 // implementations reject (go/parser rejects them, so format.Source would fail
 // on a file containing one — such strings cannot be import paths at all).
 func genArbPath(t *rapid.T) string {
-	alphabet := []string{"a", "b", "d", "D", "Z", "0", "1", "9", "-", ".", "_", "~", "+", "@", "/", "/", "ü", "日", "Ω", "٣", "é", "ß", "İ", "ǅ", "go", "int", "v2"}
+	alphabet := []string{"a", "b", "d", "D", "Z", "0", "1", "9", "-", ".", "_", "~", "+", "@", "/", "/", "ü", "日", "Ω", "٣", "é", "ß", "İ", "ǅ", "go", "int", "v2", "²", "½", "Ⅷ", "①", "ⅷ", "x²", "๓", "〇", "ª", "ʰ"}
 	n := rapid.IntRange(1, 12).Draw(t, "arblen")
 	sb := strings.Builder{}
 	for i := 0; i < n; i++ {
@@ -199,7 +199,7 @@ func Gen(pr Profile) func(t *rapid.T) Scenario {
 					continue
 				}
 			}
-			if target == "" || target == local {
+			if target == "" || (target == local && !pr.LocalCtor) {
 				continue
 			}
 			switch kind {
@@ -227,11 +227,13 @@ func Gen(pr Profile) func(t *rapid.T) Scenario {
 					}
 				}
 				delete(m, "")
-				delete(m, local)
 				ops = append(ops, recipe.FileOp{Op: "ImportNames", Map: m})
 			case "Anon":
 				if !pr.Anon {
 					continue
+				}
+				if target == local {
+					continue // an anonymous import of the File's own path is the caller's explicit wish, not a reference
 				}
 				if rapid.Bool().Draw(t, "anonref") {
 					ops = append(ops, recipe.FileOp{Op: "Anon", Args: []recipe.Text{recipe.Text(target)}})
@@ -249,11 +251,15 @@ func Gen(pr Profile) func(t *rapid.T) Scenario {
 			nd := rapid.IntRange(0, pr.Dots).Draw(t, "ndots")
 			for i := 0; i < nd; i++ {
 				target := rapid.SampledFrom(sc.Paths).Draw(t, "dottarget")
-				if target == "" || target == local || target == "C" {
+				if target == "" || target == "C" {
 					continue
 				}
 				ops = append(ops, recipe.FileOp{Op: "ImportAlias", Args: []recipe.Text{recipe.Text(target), "."}})
 			}
+		}
+		if rapid.IntRange(0, 3).Draw(t, "noformat") == 0 {
+			// unformatted output: nothing downstream (gofmt) tidies the import block
+			ops = append(ops, recipe.FileOp{Op: "NoFormat"})
 		}
 		if rapid.IntRange(0, 3).Draw(t, "lateprefix") == 0 {
 			ops = append(ops, recipe.FileOp{Op: "PackagePrefix", Args: []recipe.Text{recipe.Text(rapid.SampledFrom(prefixChoices).Draw(t, "pkgprefix2"))}})
